@@ -100,6 +100,11 @@ func runC16(c *Ctx) {
 		}
 		return adm
 	}
+	runC16Mixed(c, namespaces, func(lister admission.PodLister) *admission.Admission {
+		adm := newAdm()
+		adm.PodLister = lister
+		return adm
+	})
 	srv := server.NewServerForVerif(newAdm())
 	ts := httptest.NewServer(http.HandlerFunc(srv.HandleValidate))
 	defer ts.Close()
